@@ -48,6 +48,9 @@ EXPLANATION += ' R8 follows the operation handed to _check_required through a lo
 TECHNIQUE += '; evaluation of the writer for every selector value'
 EXPLANATION += ' R7: which selector values end in NotImplementedError is found by interpreting the writer (everything it calls replaced by no-ops) for every string constant it contains -- if / elif, a table or a loop. R6 follows files through functions taken from local dispatch tables (may-call resolution).'
 # --- end metadata round-3 twins
+# --- metadata added for batch 9
+EXPLANATION += ' R3 also: one object yielded for every frame (updated in place by the caller) is checked once per frame.'
+# --- end metadata batch 9
 TRUSTED = [
     "CPython ast parser", "open(name, 'w') is the only truncation point (POSIX)",
     "with-statement closes the file on every exit", "whitelisted total externals do not raise",
